@@ -115,6 +115,30 @@ def run_history(hist, Fragments, fill=b'.'):
         if frag.tobytes() != out:
             errs.append(('tobytes-impure', 'second tobytes() differs'))
             break
+    if not errs and any(op[0] != 'insert' for op in hist):
+        # the history above was carried out with insert(current_offset, ...) standing in for append / extend; the same history through
+        # the REAL append() and extend() - extend once with a list and once with a one-shot generator - must end in the same buffer
+        for style in ('list', 'generator'):
+            f2 = Fragments() if fill == b'.' else Fragments(fill=fill)
+            for op in hist:
+                try:
+                    if op[0] == 'insert':
+                        f2.insert(op[1], op[2])
+                    elif op[0] == 'append':
+                        f2.append(op[1])
+                    else:
+                        f2.extend(list(op[1]) if style == 'list' else (c for c in op[1]))
+                except Exception:
+                    pass
+                trans += 1
+            try:
+                out2 = (f2.tobytes(), f2.current_offset)
+            except Exception as e:
+                out2 = repr(e)
+            if out2 != (frag.tobytes(), frag.current_offset):
+                errs.append(('append/extend differ from insert at the cursor', 'through append() / extend(%s) the history ends as %r, through insert(current_offset, ...) as %r' % (
+                    'a list' if style == 'list' else 'a generator', out2, (frag.tobytes(), frag.current_offset))))
+                break
     return errs, (ref.canon(), frag.current_offset), trans
 
 
